@@ -799,6 +799,39 @@ where
     Ok(())
 }
 
+/// Derived views of a view: split_at / offset / subslice of a slice of the container; each piece
+/// reads the model's bytes and writes land where the model says.
+fn op_split<M: VolatileMemory>(c: &M, st: &mut St, t: &mut Tape, cx: &mut Cx) -> Result<(), String> {
+    let size = st.model.len();
+    let off = t.idx(size + 1);
+    let len = t.idx(size - off + 1);
+    let s = c.get_slice(off, len).map_err(|e| format!("get_slice({},{}) on {}: {}", off, len, size, verr(&e)))?;
+    let m = t.idx(len + 1);
+    note!(cx, "slice[{}..+{}].split_at({})", off, len, m);
+    let (a, b) = s.split_at(m).map_err(|e| format!("split_at({}) of {} bytes: {}", m, len, verr(&e)))?;
+    ensure!(a.len() == m && b.len() == len - m, "split_at({}) of {} bytes gave halves of {} and {} bytes", m, len, a.len(), b.len());
+    ensure!(s.split_at(len + 1).is_err(), "split_at(len + 1) succeeded");
+    for (name, piece, po) in [("first half", &a, off), ("second half", &b, off + m)] {
+        let pl = piece.len();
+        ensure!(piece.ptr_guard().len() == pl, "{}: guard of {} bytes for {} bytes", name, piece.ptr_guard().len(), pl);
+        let k = pl.min(40);
+        let mut got = vec![0u8; k];
+        piece.read_slice(&mut got, 0).map_err(|e| format!("{}: read_slice: {}", name, verr(&e)))?;
+        ensure!(got[..] == st.model[po..po + k], "split_at({}) {} reads {}, model {}", m, name, hexs(&got), hexs(&st.model[po..po + k]));
+        if k > 0 && t.flag() {
+            // a further derivation, then a write through it
+            let o2 = t.idx(pl);
+            let sub = if t.flag() { piece.offset(o2) } else { piece.subslice(o2, pl - o2) }.map_err(|e| format!("{}: offset/subslice({}): {}", name, o2, verr(&e)))?;
+            let w = (pl - o2).min(9);
+            let data = t.bytes(w);
+            sub.write_slice(&data, 0).map_err(|e| format!("{}: write through a derived view: {}", name, verr(&e)))?;
+            st.wr(po + o2, &data, 9);
+        }
+    }
+    cx.nt("derived_view_of_a_view");
+    Ok(())
+}
+
 fn op_slice_to_slice<M: VolatileMemory>(c: &M, st: &mut St, t: &mut Tape, cx: &mut Cx) -> Result<(), String> {
     let size = st.model.len();
     let soff = t.idx(size + 1);
@@ -845,7 +878,8 @@ pub fn history_alt<M: VolatileMemory, B: vm_memory::bitmap::Bitmap>(c: &M, alt: 
             Some(_) => t.flag(),
             None => false,
         };
-        match t.below(12) {
+        match t.below(13) {
+            12 => op_split(c, &mut st, t, cx)?,
             11 => {
                 let sel = t.idx(NPOD);
                 with_pod!(sel, op_typed, c, &mut st, t, cx)?
@@ -959,7 +993,7 @@ fn run_xen(_t: &mut Tape, _cx: &mut Cx) -> Result<(), String> {
 pub fn property() -> Property {
     Property {
         id: "C04",
-        rule: "a case = one container (VolatileSlice of 0..96 bytes at any base alignment mod 16 inside a canary frame, or an MmapRegion of 1 byte..2 pages +- odd, addressed as a slice and through the byte-access interface of the guest region around it; xen build: emulated Unix / foreign / grant regions incl. regions mapped on demand, judged through the device file) + a history of 1..30 operations over every accessor kind (Bytes write/read/write_slice/read_slice/write_obj/read_obj/store/load, get_ref store/load/to_slice, get_array_ref load/store/ref_at/copy_to/copy_from/copy_to_volatile_slice (inside the container, to and from memory outside it)/to_slice, aligned_as_ref/aligned_as_mut/get_atomic_ref (granted iff fitting and aligned), slice copy_to/copy_from for 11 element types, slice-to-slice copies incl. overlapping) with offsets inside/touching/crossing the end and buffer lengths around 7..9 and around the remaining length; model compared with the raw memory and the frame after every step; non-trivial = op touches or crosses the container end, length in 7..=9, buffer length != container length, overlapping copy, refused atomic, or a read through a route different from the one that wrote the bytes; distinct = decoded (container, history)",
+        rule: "a case = one container (VolatileSlice of 0..96 bytes at any base alignment mod 16 inside a canary frame, or an MmapRegion of 1 byte..2 pages +- odd, addressed as a slice and through the byte-access interface of the guest region around it; xen build: emulated Unix / foreign / grant regions incl. regions mapped on demand, judged through the device file) + a history of 1..30 operations over every accessor kind (Bytes write/read/write_slice/read_slice/write_obj/read_obj/store/load, get_ref store/load/to_slice, get_array_ref load/store/ref_at/copy_to/copy_from/copy_to_volatile_slice (inside the container, to and from memory outside it)/to_slice, aligned_as_ref/aligned_as_mut/get_atomic_ref (granted iff fitting and aligned), slice copy_to/copy_from for 11 element types, slice-to-slice copies incl. overlapping, split_at / offset / subslice of a slice of the container) with offsets inside/touching/crossing the end and buffer lengths around 7..9 and around the remaining length; model compared with the raw memory and the frame after every step; non-trivial = op touches or crosses the container end, length in 7..=9, buffer length != container length, overlapping copy, refused atomic, or a read through a route different from the one that wrote the bytes; distinct = decoded (container, history)",
         assumptions: &["values are encoded with to_ne/le/be_bytes, not through ByteValued::as_slice", "zero-sized element types are C18's business"],
         subchecks: vec![
             SubCheck { name: "slice", builds: &[Build::Std], kind: Kind::Random { quick: 60_000, thorough: 3_000_000, max_words: 260 }, run: run_slice },
